@@ -123,21 +123,8 @@ func (m *Model) PullPositions(ctx context.Context, ops ...resource.ReadOption) <
 		seenAll := false
 		var last *traits.OpenClosePositions
 
-		for change := range m.positions.Pull(ctx) {
-			if change.NewValue == nil {
-				delete(all, change.Id)
-			} else {
-				all[change.Id] = change.NewValue.(*traits.OpenClosePosition)
-			}
-
-			shouldSend := seenAll || (change.LastSeedValue && !readRequest.UpdatesOnly)
-			if change.LastSeedValue {
-				seenAll = true
-			}
-			if !shouldSend {
-				continue
-			}
-
+		// emit sends the current positions unless they equal what was sent last; false means stop
+		emit := func(changeTime time.Time) bool {
 			// transform into the correct output format
 			positions := &traits.OpenClosePositions{
 				States: maps.Values(all),
@@ -149,18 +136,52 @@ func (m *Model) PullPositions(ctx context.Context, ops ...resource.ReadOption) <
 			// projection and filtering, on a copy: the states are the stored messages
 			positions = responseFilter.FilterClone(positions).(*traits.OpenClosePositions)
 			if eq(last, positions) {
-				continue
+				return true
 			}
 			last = positions
 
 			// do the send
 			select {
 			case <-ctx.Done():
-				return
+				return false
 			case send <- PullOpenClosePositionsChange{
 				Positions:  positions,
-				ChangeTime: change.ChangeTime,
+				ChangeTime: changeTime,
 			}:
+				return true
+			}
+		}
+
+		changes := m.positions.Pull(ctx)
+		if len(m.positions.List()) == 0 {
+			// no position will arrive as a seed, and so no LastSeedValue either:
+			// the (empty) set of positions has been seen in full
+			seenAll = true
+			if !readRequest.UpdatesOnly && !emit(m.positions.Clock().Now()) {
+				return
+			}
+		}
+
+		for change := range changes {
+			if change.NewValue == nil {
+				delete(all, change.Id)
+			} else {
+				all[change.Id] = change.NewValue.(*traits.OpenClosePosition)
+			}
+
+			if !change.SeedValue {
+				seenAll = true // updates only follow the seed
+			}
+			shouldSend := seenAll || (change.LastSeedValue && !readRequest.UpdatesOnly)
+			if change.LastSeedValue {
+				seenAll = true
+			}
+			if !shouldSend {
+				continue
+			}
+
+			if !emit(change.ChangeTime) {
+				return
 			}
 		}
 	}()
